@@ -1,5 +1,6 @@
 from vlib.runner import Tie
 from vlib import core
+import os, subprocess
 
 ID = "C17"
 LEVEL = "proof"
@@ -45,7 +46,90 @@ def gen(rng, tier):
     return out
 
 
-TIES = [Tie("obfuscation", "tie/drivers/serstore_drv.cpp", "Extract_SerStore.v", "serstore_driver.ml", gen,
+def dump_records(heights):
+    """The generator looks at the deterministic regtest block files through the driver's `dumprec`
+    command (plain file reads + the XOR key, no BlockManager read path): the stored bytes become
+    part of each case, so the model predicts every read from the case line alone."""
+    exe = os.path.join(core.BUILD, "drv", "serstore_drv")
+    p = subprocess.run([exe], input="".join("dumprec %d\n" % h for h in heights), capture_output=True, text=True, timeout=600)
+    out = {}
+    for h, line in zip(heights, p.stdout.split("\n")):
+        parts = line.split(" | ")
+        w = parts[0].split()
+        if len(w) != 5:
+            continue
+        rec = dict(file=int(w[0]), pos=int(w[1]), size=int(w[2]), fsize=int(w[3]), slice=w[4])
+        if len(parts) > 1:
+            u = parts[1].split()
+            rec.update(ufile=int(u[0]), upos=int(u[1]), usize=int(u[2]), uslice=u[3])
+        out[h] = rec
+    return out
+
+
+def gen_records(rng, tier):
+    big = tier != "quick"
+    heights = [0, 1, 2, 100, 101, 150, 200, 230, 249, 250, 251, 300, 359, 360]
+    for _ in range(4 if not big else 60):
+        heights.append(rng.randrange(1, 361))
+    heights = sorted(set(heights))
+    D = dump_records(heights)
+    if not D:
+        raise core.InfraError("serstore_drv dumprec produced nothing")
+    C = []
+    for h in heights:
+        r = D.get(h)
+        if r is None:
+            continue
+        size = r["size"]; sl = r["slice"]; avail = len(sl) // 2 - 8     # bytes known after the 8-byte header
+        def rec(rel, mask):
+            C.append("rec %d %s %d %d %d" % (h, sl, avail - size, rel, mask))
+        rec(0, 0)
+        # magic: every bit of every byte
+        for rel in range(0, 4):
+            for bit in range(8):
+                if h in (1, 250) or rng.random() < 0.15:
+                    rec(rel, 1 << bit)
+        # size field: flips that shrink it, that grow it within the known tail, and that push it over MAX_SIZE
+        cur = [int(sl[2 * (4 + i): 2 * (4 + i) + 2], 16) for i in range(4)]
+        for rel in range(4, 8):
+            for bit in range(8):
+                newb = cur[rel - 4] ^ (1 << bit)
+                nsz = size - (cur[rel - 4] << (8 * (rel - 4))) + (newb << (8 * (rel - 4)))
+                if nsz <= avail or nsz > 33554432:
+                    rec(rel, 1 << bit)
+        # header bytes (80) and a stride through the transactions
+        for rel in range(8, 88):
+            if h in (1, 250) or rng.random() < 0.1:
+                rec(rel, 1 << rng.randrange(8))
+        for rel in range(88, 8 + size, 1 if (h in (1, 250) or big) else 9):
+            rec(rel, rng.choice([1, 2, 4, 8, 16, 32, 64, 128, 255]))
+        # bytes after the record (next record / preallocated space) do not matter
+        for rel in range(8 + size, 8 + min(avail, size + 8)):
+            rec(rel, 255)
+        if "usize" in r:
+            us = r["usize"]
+            C.append("undo %d %d 0 0" % (h, us))
+            for rel in range(0, 8 + us + 32 + 4):
+                if h in (1, 250) or rel < 8 or rel >= 8 + us or rng.random() < 0.2:
+                    C.append("undo %d %d %d %d" % (h, us, rel, 1 << rng.randrange(8)))
+    seen = set(); out = []
+    for c in C:
+        if c not in seen:
+            seen.add(c); out.append(c)
+    return out
+
+
+def classify(c):
+    w = c.split(" ")
+    if w[0] == "rec":
+        rel, mask = int(w[4]), int(w[5])
+        return "rec:" + ("intact" if mask == 0 else "magic" if rel < 4 else "size" if rel < 8 else "header" if rel < 88 else "payload")
+    return w[0]
+
+
+TIES = [Tie("block_records", "tie/drivers/serstore_drv.cpp", "Extract_SerStore.v", "serstore_driver.ml", gen_records,
+            predicate="driver", classify=classify, nontrivial=lambda c: not c.endswith(" 0 0")),
+        Tie("obfuscation", "tie/drivers/serstore_drv.cpp", "Extract_SerStore.v", "serstore_driver.ml", gen,
             predicate="driver", nontrivial=lambda c: not c.endswith(" -"))]
 
 LEVEL_TEXT = ("PARTIAL. Coq theorems for ALL keys, offsets, buffer addresses and data about a word-level Gallina transcription of "
